@@ -53,6 +53,7 @@ def run(prop, tier, seed, replay=None):
     out, err = vlib.run_harness(vh, ["privacy", "-in", sf, "-out", rf, "-parallel", "12", "-timeout", "300"], timeout=7200)
     log(out.strip())
     seen, steps, edges = set(), 0, set()
+    traces = []
     for line in open(rf):
         res = json.loads(line)
         c = cases[res["index"]]
@@ -70,12 +71,50 @@ def run(prop, tier, seed, replay=None):
             v.violation(vi["key"], vi["what"], c)
         for nc in o.get("nonconf") or []:
             v.warn("nonconformance: " + nc)
+        if o.get("events"):
+            traces.append((c, o["events"]))
         seen |= set(o.get("seen") or [])
         steps += len(c["steps"])
         for st in c["steps"]:
             edges.add(json.dumps([st["a"]["l"], st["s"]], sort_keys=True))
         if c["id"] % 9 == 1:
             v.sample({"init": c["init"], "steps": [s["a"]["l"] for s in c["steps"]][:12], "observed": (o.get("observed") or [])[:12]})
+    # trace validation by TLC: the monitor pass decides PrivacyInv on the observed states, the strict pass
+    # checks that every observed step is a step of Privacy.tla
+    if traces:
+        twd = vlib.scratch("privt-")
+        tf = os.path.join(twd, "trace.ndjson")
+        index = []
+        with open(tf, "w") as f:
+            for c, ev in traces:
+                for k, e in enumerate(ev):
+                    f.write(json.dumps(e, separators=(",", ":")) + "\n")
+                    index.append((c, k))
+        r = run_tlc("PrivacyTrace", "PrivacyTrace_mon.cfg", workdir=twd, workers=1, env={"TRACE": tf}, timeout=3600)
+        if r.violation:
+            import re
+            m = re.findall(r"^/\\ l = (\d+)", open(r.outfile).read(), re.M)
+            line = int(m[-1]) - 1 if m else 1
+            c, k = index[max(0, line - 1)]
+            v.violation("observed-" + r.violation, "invariant %s of Privacy.tla is false in a state observed from the implementation (case %s step %d: %s)"
+                        % (r.violation, c["id"], k - 1, json.dumps(traces[[x[0]["id"] for x in traces].index(c["id"])][1][k])[:300]), c)
+        elif not r.ok:
+            raise Internal("privacy monitor pass failed: %s\n%s" % (r.error, r.tail))
+        v.cov["states"] += r.distinct
+        v.cov["transitions"] += r.generated
+        r = run_tlc("PrivacyTrace", "PrivacyTrace_strict.cfg", workdir=twd, workers=1, env={"TRACE": tf}, timeout=3600)
+        if not r.ok and not r.violation:
+            raise Internal("privacy trace validation failed: %s\n%s" % (r.error, r.tail))
+        bad = {}
+        for x in r.lines("BADLINE"):
+            ln = int(x.split()[0])
+            c, k = index[ln - 1]
+            bad.setdefault(c["id"], (k, x.split()[1]))
+        for cid, (k, a) in list(bad.items())[:10]:
+            v.warn("nonconformance: case %s step %d (%s) is not a step of Privacy.tla with the observed outputs" % (cid, k - 1, a))
+        v.cov["trace_validation"] = {"traces": len(traces), "events": len(index), "rejected_traces": len(bad)}
+        v.cov["states"] += r.distinct
+        v.cov["transitions"] += r.generated
     # anti-vacuity: every producible observation class must have been produced somewhere
     need = {"tracker:port", "tracker:noport", "webseed", "dht4:port", "dht4:noport", "dht6:port", "dht6:noport", "peer:version", "peer:port",
             "peer:dhtport", "incoming:accepted", "incoming:refused", "peer:ext0"}
